@@ -64,6 +64,8 @@ func caseFromSx(v sx.V) (Case, error) {
 		return swapCase{N: int(v.N(1).Int())}, nil
 	case "crash":
 		return crashCaseFromSx(v), nil
+	case "coord":
+		return coordCaseFromSx(v), nil
 	}
 	return nil, fmt.Errorf("unknown family %q", v.N(0).Str())
 }
@@ -91,6 +93,8 @@ func generate(prop, tier string, rng *Rng) []Case {
 		return genC05(tier, rng)
 	case "C14":
 		return genCrash(tier, rng)
+	case "C12", "C13":
+		return genCoord(tier, rng)
 	case "C19":
 		if os.Getenv("HX_RT") != "" {
 			n := 1500
